@@ -565,6 +565,7 @@ class World:
             self.reg(o)
             mops.append({'k': 'seed', 'cls': self.cidx(o), 'pk': self.pkl(o)})
         seeds = cache.seeds[self.pk_attrs]
+        late = []
         rows = {tuple(r['pk']): r for r in self.db_rows()}
         for o in sorted([o for o in self.objs if o._pkval_ is not None and o._status_ not in ('deleted', 'cancelled') and o._vals_ is not None], key=lambda o: self.pkl(o)):
             was = before_state.get(id(o))
@@ -572,11 +573,13 @@ class World:
             if was is None: was = (True, frozenset(), frozenset())
             wcls = before_state.get(('cls', id(o)), self.cidx(o))
             if was != now and tuple(self.pkl(o)) in rows:
-                mops.append(self.row_mop(rows[tuple(self.pkl(o))]))
+                # a row whose load was refused midway (database values stored, `_vals_` not) was the LAST one of its batch
+                refused = bool(now[2] - now[1])
+                (late if refused else mops).append(self.row_mop(rows[tuple(self.pkl(o))]))
             elif wcls != self.cidx(o):
                 # a typed reference (R.f -> E1) named an object known as its base class: class refinement without a load
                 mops.append({'k': 'seed', 'cls': self.cidx(o), 'pk': self.pkl(o)})
-        return mops
+        return mops + late
 
     def load_state(self):
         cache = self.cache()
